@@ -180,6 +180,8 @@ class Interp:
         self.ghost_vars = {}    # extra names visible to contract expressions
         self.calls_ghost = None
         self.ncalls = {}        # ghost: callback name -> number of its calls
+        for nm in getattr(world, 'alloc_sigs', ()):
+            self.ncalls[nm] = z3.IntVal(0)
         self.yield_hooks = []
 
     # ----------------------------------------------------- branching ----
